@@ -11,6 +11,7 @@ import (
 	"strconv"
 	"strings"
 	"sync"
+	"sync/atomic"
 
 	"storj.io/drpc"
 	"github.com/zeebo/errs"
@@ -96,6 +97,7 @@ type World struct {
 	Codes      map[string]uint64 // thread -> drpcerr.Code of the last error a call returned
 	EGate      dir.Gate
 	svGoidSeen int64
+	svSeenA    atomic.Int64
 	LastWhere  map[string]string
 	Lines      []Line
 	Quiet      bool
@@ -281,6 +283,20 @@ func New(cfg Config) *World {
 		} else {
 			real = append(real, p)
 		}
+	}
+	w.D.LibWho = func(point string) string {
+		if !strings.HasPrefix(point, "manager.stream.") {
+			return ""
+		}
+		// the server's manager goroutines are created by the ServeOne goroutine
+		sv := w.D.Thread("sv").GoID()
+		if sv == 0 {
+			sv = w.svSeenA.Load()
+		}
+		if c := vf.SelfCreator(); c != 0 && c == sv {
+			return "ms_srv"
+		}
+		return "ms_cli"
 	}
 	w.D.ArmPoints(real...)
 	w.D.Go("sv", func() string { return ErrClass(srv.ServeOne(sctx, w.SP)) })
@@ -478,6 +494,13 @@ func (w *World) Apply(st Stim) bool {
 		p.Fail()
 		return true
 	case "point":
+		if strings.HasPrefix(st.T, "ms_") { // a library goroutine parked at manager.stream.ctx
+			if w.Last().Lib[st.T] != "pt" {
+				return false
+			}
+			w.mark()
+			return w.D.ReleasePoint(st.T)
+		}
 		snap, _ := w.D.Quiesce()
 		if wh, ok := snap.Threads[st.T]; !ok || wh.State != "gate:gate" {
 			return false
@@ -607,12 +630,15 @@ func (w *World) Observe() (Obs, bool) {
 			st = "tw"
 		case g.Has("dir.(*GatedPipe).Read"):
 			st = "tr"
+		case g.Has("dir.(*Gate).Wait"):
+			st = "pt"
 		default:
 			w.LastWhere[role+ep] = short(g.Innermost("storj.io/drpc/"))
 		}
 		o.Lib[role+ep] = st
 	}
 	if svGoid != 0 {
+		w.svSeenA.Store(svGoid)
 		w.svGoidSeen = svGoid
 	}
 	select {
